@@ -206,6 +206,8 @@ func (h *Hook) OnDisconnect(cl *mqtt.Client, _ error, expire bool) {
 		return
 	}
 
+	h.updateClient(cl)
+
 	if !expire {
 		return
 	}
@@ -320,6 +322,7 @@ func (h *Hook) OnQosPublish(cl *mqtt.Client, pk packets.Packet, sent int64, rese
 		T:           storage.InflightKey,
 		Client:      cl.ID,
 		Origin:      pk.Origin,
+		PacketID:    pk.PacketID,
 		FixedHeader: pk.FixedHeader,
 		TopicName:   pk.TopicName,
 		Payload:     pk.Payload,
